@@ -249,6 +249,45 @@ func progUnrelatedHang() *Program {
 	}, Outputs: []Output{{"success", O("r", E(sv("a")))}}}
 }
 
+// programs for the cancellation driver
+func cancelPrograms() []*Program {
+	noSig := func(p *Program, name string) *Program {
+		q := *p
+		q.Name = name
+		q.Steps = append([]Step{}, p.Steps...)
+		for i := range q.Steps {
+			q.Steps[i].PluginStep = "nosig"
+		}
+		return &q
+	}
+	withClosure := func(p *Program, name string, ms int64) *Program {
+		q := *p
+		q.Name = name
+		q.Steps = append([]Step{}, p.Steps...)
+		for i := range q.Steps {
+			if q.Steps[i].Kind != "foreach" {
+				q.Steps[i].ClosureMS = I(ms)
+			}
+		}
+		return &q
+	}
+	return []*Program{
+		progSingle(), withClosure(progSingle(), "single-c0", 0), withClosure(progSingle(), "single-c50", 50), noSig(progSingle(), "single-nosig"),
+		progChain(2), withClosure(progFanIn(), "fanin-c50", 50), progForeach(subProg(), 2), progUnrelatedHang(), progStopProducer(),
+	}
+}
+
+var altsCancel = []stepAlt{
+	{"ok", env.StepScript{}},
+	{"slow", env.StepScript{RunMS: 20}},
+	{"hang", env.StepScript{Run: env.RunHangCancel}},
+	{"hangx", env.StepScript{Run: env.RunHangIgnore}},
+	{"hangslow", env.StepScript{Run: env.RunHangCancel, CancelMS: 30}},
+	{"slowdeploy", env.StepScript{DeployMS: 15, DeployIgnoreCtx: true}},
+	{"deployhang", env.StepScript{Deploy: env.DeployHang}},
+	{"nodeploy", env.StepScript{Deploy: env.DeployFail}},
+}
+
 func catalogue() []*Program {
 	return []*Program{
 		progSingle(), progChain(2), progChain(3), progFanIn(), progDiamond(), progMultiOut(), progMultiOut2(),
